@@ -809,6 +809,10 @@ def check_cfg_linearity(
         for place in scope.values():
             for leaf in leaf_places(place):
                 x = leaf.id
+                # A place of a predecessor that is re-assigned in this BB was already
+                # checked at that assignment; `x` now refers to the new value
+                if scope.vars.get(x, leaf) is not leaf:
+                    continue
                 # Some values are just in scope because the type checker determined
                 # them as live in the first (less precises) dataflow analysis. It
                 # might be the case that x is actually not live when considering
